@@ -145,8 +145,7 @@ func (m *Machine) callVx(caller *frame, fn *ssa.Function, args []value) (value, 
 	case "vxChoice":
 		n := int(m.concretize(args[0].(*Term)))
 		v := m.newInput("int", S64)
-		m.assume(st.Bin(OpULT, v, st.BV(64, uint64(n))))
-		return st.BV(64, m.concretize(v)), true
+		return st.BV(64, m.chooseFresh(v, n)), true
 	case "vxConcrete":
 		return st.BV(64, m.concretize(args[0].(*Term))), true
 	case "vxConcreteByte":
@@ -536,4 +535,41 @@ func (m *Machine) describeStr(v value) string {
 		return string(bs)
 	}
 	return fmt.Sprint(v)
+}
+
+// chooseFresh forks over the values 0..n-1 of a fresh, otherwise unconstrained input
+// variable.  Every value extends the current model, so no solver call is needed.
+func (m *Machine) chooseFresh(v *Term, n int) uint64 {
+	if n <= 0 {
+		m.abort("infeasible", "choice over an empty range")
+	}
+	k := len(m.decs)
+	var val uint64
+	if k < len(m.prefix) {
+		val = m.prefix[k].Val
+	} else {
+		for j := 1; j < n; j++ {
+			pre := make([]Dec, k+1)
+			copy(pre, m.decs)
+			pre[k] = Dec{Dir: true, Val: uint64(j), Conc: true}
+			md := make(Model, len(m.model)+1)
+			for kk, vv := range m.model {
+				md[kk] = vv
+			}
+			md[v.Name] = uint64(j)
+			m.Push(Item{pre, md})
+		}
+		if m.model[v.Name] != 0 {
+			md := make(Model, len(m.model))
+			for kk, vv := range m.model {
+				md[kk] = vv
+			}
+			md[v.Name] = 0
+			m.setModel(md)
+		}
+	}
+	m.decs = append(m.decs, Dec{Dir: true, Val: val, Conc: true})
+	m.Stats.Branches++
+	m.addPC(m.st.Eq(v, m.st.Const(v.Sort, val)))
+	return val
 }
